@@ -130,6 +130,7 @@ class Report:
         self.assumptions = []
         self.notes = []
         self.exhaustive_tables = []
+        self._per_rule = {}
 
     # a rule instance was evaluated; ok => discharged
     def oblige(self, rule, instance, ok, sample=None, nontrivial=True):
@@ -139,8 +140,11 @@ class Report:
             self.discharged += 1
         if nontrivial:
             self.nontrivial.add((rule, instance))
-        if sample is not None and len(self.samples) < 40:
-            self.samples.append(sample)
+        if sample is not None:
+            c = self._per_rule.get(rule, 0)
+            if c < 6:
+                self._per_rule[rule] = c + 1
+                self.samples.append(sample)
 
     def add(self, finding):
         # de-dup on key
@@ -220,7 +224,7 @@ def finish(report, tier, t0, level="other", explanation="", extra_cov=None):
         "functions_analysed": len(report.functions),
         "call_sites": report.call_sites,
         "rules": report.rules,
-        "samples": report.samples[:40],
+        "samples": report.samples[:80],
         "exemptions": report.exemptions,
         "known_findings_matched": [f.key for f in listed],
         "new_findings": [f.to_json() for f in new],
